@@ -16,3 +16,9 @@ package types
 // verif:func UnpackConsensusState
 //@ names [fn] result1 == nil ==> result == unpackedConsensus(any)
 //@ ensures [non-nil] result1 == nil ==> result != nil
+
+// A header taken out of a protobuf Any of a registered type can be packed again (protobuf fact, assumed).
+// verif:spec marshalable(h exported.Header) bool
+// verif:func UnpackHeader
+//@ names [from-any]   result1 == nil ==> marshalable(result)
+//@ ensures [non-nil]  result1 == nil ==> result != nil
